@@ -27,6 +27,7 @@
 #include <ImathQuat.h>
 #include <ImathVec.h>
 #include <algorithm>
+#include <atomic>
 
 namespace c05 {
 using namespace IMATH_NAMESPACE;
@@ -240,7 +241,7 @@ template <class T, int N> inline void check_dir (const int* v, const int* m, Tal
 }
 
 // --- homogeneous forms: Vec(N-1) x MatrixNN, append 1, divide by the last coordinate ----------
-struct HomogClasses { long long affine = 0, projective = 0, inexact = 0, wzero = 0; };
+struct HomogClasses { long long affine = 0, projective = 0, inexact = 0, wzero = 0, npot = 0; }; // npot: |w| is not a power of two and some quotient is not exact
 
 template <class T, int N> inline void check_homog (const int* v, const int* m, Tally& t, HomogClasses& hc)
 {
@@ -269,6 +270,7 @@ template <class T, int N> inline void check_homog (const int* v, const int* m, T
         if (num[j] % w) inexact = true;
     }
     if (inexact) ++hc.inexact;
+    { i64 aw = w < 0 ? -w : w; if (inexact && (aw & (aw - 1))) ++hc.npot; } // the quotient is really rounded: x/w != x*(1/w) in general
     V y = x * A;
     bool bad = false;
     for (int j = 0; j < N - 1; ++j) if (!(y[j] == ref[j])) bad = true;
@@ -366,6 +368,8 @@ template <class T, int N> inline void check_outer (const int* a, const int* b, T
     t.tr += 1;
 }
 
+inline std::atomic<long long>& quatdot_count () { static std::atomic<long long> n (0); return n; }
+
 // --- quaternion product (Hamilton): (r1 r2 - v1.v2, r1 v2 + r2 v1 + v1 x v2) --------------------
 template <class T> inline void check_quat (const int* a, const int* b, Tally& t)
 {
@@ -387,8 +391,15 @@ template <class T> inline void check_quat (const int* a, const int* b, Tally& t)
     for (int i = 0; i < 4; ++i) if (!ex::same (dv[i], cv[i])) same = false;
     if (!same || &rr != &d)
         R ().fail (std::string ("Quat") + TN<T>::s () + "::operator*=.vs-operator*", "a=" + ints (a, 4) + " b=" + ints (b, 4), vals (cv, 4), vals (dv, 4));
+    // 4-D dot product of two quaternions: operator^ and euclideanInnerProduct
+    i64 dref = 0;
+    for (int i = 0; i < 4; ++i) dref += (i64) a[i] * b[i];
+    T dq = p ^ q, ei = p.euclideanInnerProduct (q);
+    if (!(dq == (T) dref)) R ().fail (std::string ("operator^(Quat") + TN<T>::s () + ",Quat" + TN<T>::s () + ")", "a=" + ints (a, 4) + " b=" + ints (b, 4), std::to_string (dref), vf::fmt (dq));
+    quatdot_count ().fetch_add (1, std::memory_order_relaxed);
+    if (!(ei == (T) dref)) R ().fail (std::string ("Quat") + TN<T>::s () + "::euclideanInnerProduct", "a=" + ints (a, 4) + " b=" + ints (b, 4), std::to_string (dref), vf::fmt (ei));
     t.st += 1;
-    t.tr += 2;
+    t.tr += 4;
 }
 
 // --- transpose / trace -------------------------------------------------------------------------
@@ -731,8 +742,17 @@ template <class T> inline void rnd_quat (const T* a, const T* b, Tally& t, doubl
         if (!ex::same (cv[i], dv[i]))
             R ().fail (std::string ("Quat") + TN<T>::s () + "::operator*=.vs-operator*", "a=" + vals (a, 4) + " b=" + vals (b, 4), vals (cv, 4), vals (dv, 4));
     }
+    {   // 4-D dot: a 4-term inner product, R = 4
+        ld s = 0, S = 0;
+        for (int i = 0; i < 4; ++i) { ld pr = (ld) a[i] * (ld) b[i]; s += pr; S += fabsl (pr); }
+        ld bound = 5 * ex::eps<T> () * S;
+        T  dq = p ^ q, ei = p.euclideanInnerProduct (q);
+        if (!within (dq, s, bound)) R ().fail (std::string ("operator^(Quat") + TN<T>::s () + ",Quat" + TN<T>::s () + ").rounding", "a=" + vals (a, 4) + " b=" + vals (b, 4), vf::fmt (s) + " +- " + vf::fmt (bound), vf::fmt (dq));
+        else worst = std::max (worst, (double) (fabsl ((ld) dq - s) / bound));
+        if (!within (ei, s, bound)) R ().fail (std::string ("Quat") + TN<T>::s () + "::euclideanInnerProduct.rounding", "a=" + vals (a, 4) + " b=" + vals (b, 4), vf::fmt (s) + " +- " + vf::fmt (bound), vf::fmt (ei));
+    }
     t.st += 1;
-    t.tr += 2;
+    t.tr += 4;
 }
 
 // determinant by the Leibniz sum over permutations: value and sum of |terms|
@@ -818,5 +838,7 @@ template <class T, int N> inline void rnd_det (const T* m, Tally& t, double& wor
 template <class T> void run_exact ();      // basis, lattice, primes, sparsity, homogeneous
 template <class T> void run_det ();        // determinants / minors / transposes / det of products
 template <class T> void run_rounding ();   // graded non-lattice operands vs long double
+template <class T> void run_mixed ();      // Vec<S> x Matrix<T>, S != T (c05_mixed.hpp)
+void run_intvec ();                        // dot / cross of the integer and half vector instantiations (c05_intvec.cpp)
 
 } // namespace c05
